@@ -229,6 +229,16 @@ pub fn run(t: &[&str]) -> String {
         tohex(sections.debug_loc.slice()),
         tohex(sections.debug_loclists.slice())
     );
+    // spec-level oracle on the DWARF 5 section headers (DWARF 5 section 7.28/7.29): the contributions tile the
+    // section exactly, version 5, segment selector size 0, offset entry count 0
+    for (name, bytes) in [
+        ("rnglists", sections.debug_rnglists.slice()),
+        ("loclists", sections.debug_loclists.slice()),
+    ] {
+        if let Some(why) = bad_v5_headers(bytes, endian, &units) {
+            return format!("header-mismatch {} {}", name, why);
+        }
+    }
     // units with an address size the reader refuses cannot be read back at all
     if units.iter().any(|u| !matches!(u.asz, 1 | 2 | 4 | 8)) {
         return head;
@@ -246,6 +256,33 @@ pub fn run(t: &[&str]) -> String {
 }
 
 type Rd<'a> = EndianSlice<'a, RunTimeEndian>;
+
+fn bad_v5_headers(bytes: &[u8], endian: RunTimeEndian, units: &[UnitIn]) -> Option<String> {
+    use gimli::Reader;
+    let mut r = EndianSlice::new(bytes, endian);
+    while !r.is_empty() {
+        let (len, format) = match r.read_initial_length() {
+            Ok(x) => x,
+            Err(e) => return Some(format!("initial-length {}", errname(&e))),
+        };
+        if len > r.len() {
+            return Some(format!("unit_length {} exceeds the remaining {} bytes", len, r.len()));
+        }
+        let mut body = match r.split(len) {
+            Ok(b) => b,
+            Err(e) => return Some(errname(&e)),
+        };
+        let _ = format;
+        let version = body.read_u16().unwrap_or(0);
+        let asz = body.read_u8().unwrap_or(0);
+        let seg = body.read_u8().unwrap_or(1);
+        let count = body.read_u32().unwrap_or(1);
+        if version != 5 || seg != 0 || count != 0 || !units.iter().any(|u| u.version == 5 && u.asz == asz) {
+            return Some(format!("version={} address_size={} segment_selector_size={} offset_entry_count={}", version, asz, seg, count));
+        }
+    }
+    None
+}
 
 fn readback(
     sections: &Sections<EndianVec<RunTimeEndian>>,
